@@ -98,6 +98,7 @@ type c02world struct {
 	*soloWorld
 	oldLocalUfrag, oldLocalPwd, oldPeerUfrag, oldPeerPwd string
 	oldTx                                                []byte // a request X sent in the previous generation
+	expired                                              bool   // every request X has sent is older than maxBindingRequestTimeout
 }
 
 func c02build(st string) *c02world {
@@ -113,6 +114,12 @@ func c02build(st string) *c02world {
 	case strings.HasPrefix(st, "fresh"):
 	case strings.HasPrefix(st, "pending"):
 		sw.tick()
+		if strings.Contains(st, "expired") {
+			// the requests are older than the transaction lifetime and nothing has been sent since: by the harness's own
+			// clock none of them is outstanding any more, whatever the agent still keeps in its table
+			time.Sleep(maxBindingRequestTimeout + 100*time.Millisecond)
+			w.expired = true
+		}
 	case strings.HasPrefix(st, "valid"):
 		// one pair valid but not nominated / not selected
 		sw.tick()
@@ -126,6 +133,10 @@ func c02build(st string) *c02world {
 		sw.establish()
 		if !cfg.Lite {
 			sw.tick() // keepalive request outstanding towards the selected remote
+		}
+		if strings.Contains(st, "expired") {
+			time.Sleep(maxBindingRequestTimeout + 100*time.Millisecond)
+			w.expired = true
 		}
 	case strings.HasPrefix(st, "restarted"):
 		sw.tick()
@@ -234,7 +245,7 @@ func c02make(w *c02world, m c02msg) (data []byte, src string, valid bool, pendin
 				msg.TransactionID = describeSTUN(d.data).tx
 				// is it still outstanding inside the agent?
 				for _, pr := range a.pendingBindingRequests {
-					if pr.transactionID == msg.TransactionID && m.Tx == "pending-here" {
+					if pr.transactionID == msg.TransactionID && m.Tx == "pending-here" && !w.expired {
 						pendingSameSource = true
 					}
 				}
@@ -456,7 +467,7 @@ func checkC02(c *runCtx) {
 	c.assume("FINGERPRINT is varied but not part of the statement's validity rule (the agent does not require it)",
 		"a source given in IPv4-mapped form is the same address as its IPv4 form",
 		"attributes placed after MESSAGE-INTEGRITY are outside its coverage (RFC 5389): such a message counts as signed iff the library's check accepts it")
-	states := []string{"fresh-controlling", "fresh-controlled", "pending-controlling", "pending-controlled", "valid-controlling", "connected-controlling", "connected-controlled", "restarted-controlling", "restarted-controlled", "restarted-samepeer-controlling", "restarted-samepeer-controlled", "lite-controlled"}
+	states := []string{"fresh-controlling", "fresh-controlled", "pending-controlling", "pending-controlled", "pending-expired-controlling", "pending-expired-controlled", "connected-expired-controlling", "valid-controlling", "connected-controlling", "connected-controlled", "restarted-controlling", "restarted-controlled", "restarted-samepeer-controlling", "restarted-samepeer-controlled", "lite-controlled"}
 	msgs := c02messages(c.quick())
 	var cases []c02case
 	for _, st := range states {
